@@ -135,6 +135,21 @@ theorem primsOkB_struct_eq (t : Nat) (ks : List TItem) (ht : tagOk t = true) :
     primsOkB (.struct t ks) = primsOkListB ks := by
   simp only [primsOkB, ht, Bool.true_and]
 
+/-- (stated as a lemma: the kernel must not be asked to compare `okOpt okLen (some n)` with `okLen n` by
+unfolding — it unfolds the wrong side into the decision procedure of `fitsTC`) -/
+theorem okOpt_some {α} (f : α → Bool) (a : α) (h : okOpt f (some a) = true) : f a = true := h
+
+theorem okOpt_of {α} (f : α → Bool) (a : α) (h : f a = true) : okOpt f (some a) = true := h
+
+theorem primsOkB_len (t n : Nat) (ht : tagOk t = true) (h : okLen n = true) : primsOkB (int t (Int.ofNat n)) = true :=
+  primsOkB_int t _ ht h
+
+theorem okInt_small (n : Nat) (h : n < 10) : okInt (Int.ofNat n) = true := by
+  unfold okInt
+  rw [decide_eq_true_eq]
+  simp only [fitsTC, Int.ofNat_eq_natCast, Nat.reducePow]
+  omega
+
 /-- evaluate `primsOkB` / `primsOkListB` on a tree built from M16's leaves; side conditions from the context -/
 macro "vs" : tactic =>
   `(tactic| simp (disch := first | assumption | decide) only [primsOkB_struct_eq, primsOkListB, primsOkListB_append,
@@ -194,14 +209,15 @@ theorem prims_encAttr1x (a : TAttr) (h : okAttr1x a = true) : primsOkB (encAttr1
   cases hsp : specOf name with
   | none => simp only [hsp] at hs; exact absurd hs Bool.false_ne_true
   | some sp =>
-    cases hsn : specOfName name with
-    | error e => simp only [hsp, hsn] at hs; exact absurd hs Bool.false_ne_true
-    | ok sp' =>
-      simp only [hsp, hsn, Bool.and_eq_true, beq_iff_eq] at hs
-      obtain ⟨rfl, hs⟩ := hs
-      have hv := prims_encValue T.attributeValue name sp value (by decide) hs
-      simp only [kmip_tags] at hv
-      cases index <;> simp only [okOpt] at hi <;> simp only [encAttr1x, hsp] <;> vs
+    simp only [hsp] at hs
+    have hv := prims_encValue T.attributeValue name sp value (by decide) hs
+    simp only [kmip_tags] at hv
+    cases index with
+    | none => simp only [encAttr1x, hsp]; vs
+    | some i =>
+      have hi' := primsOkB_int T.attributeIndex i (by decide) (okOpt_some _ _ hi)
+      simp only [kmip_tags] at hi'
+      simp only [encAttr1x, hsp]; vs
 
 theorem prims_encAttr20 (a : TAttr) (h : okAttr20 a = true) : primsOkB (encAttr20 a) = true := by
   obtain ⟨name, index, value⟩ := a
@@ -213,8 +229,370 @@ theorem prims_encAttr20 (a : TAttr) (h : okAttr20 a = true) : primsOkB (encAttr2
     | none => simp only [ht, hsp] at h; exact absurd h Bool.false_ne_true
     | some sp =>
       simp only [ht, hsp, Bool.and_eq_true] at h
-      have htag : tagOk t = true := List.all_eq_true.mp allTags_tagOk t (List.contains_iff_mem.mp h.1.1.1.1)
+      have htag : tagOk t = true :=
+        List.all_eq_true.mp allTags_tagOk t (List.contains_iff_mem.mp (nameOfTag_tagOfName name t ht).1)
       simp only [encAttr20, ht, hsp, Option.getD_some]
       exact prims_encValue t name sp value htag h.2
+
+theorem prims_encTemplateName (i : Nat) : primsOkB (encTemplateName i) = true := by
+  have := isAscii_tmpl i
+  simp only [encTemplateName]; vs
+
+theorem prims_encTemplate (v t1 t2 : Nat) (t : Template) (h1 : tagOk t1 = true) (h2 : tagOk t2 = true)
+    (h : okTemplate v t = true) : primsOkB (encTemplate v t1 t2 t) = true := by
+  unfold okTemplate at h
+  unfold encTemplate
+  by_cases hv : v < 20
+  · simp only [hv, ↓reduceIte] at h ⊢
+    have hall := List.all_eq_true.mp h
+    have a1 := primsOkListB_map encTemplateName (List.range t.templateNames) (fun i _ => prims_encTemplateName i)
+    have a2 := primsOkListB_map encAttr1x t.attrs (fun a ha => prims_encAttr1x a (hall a ha))
+    simp only [encTemplate1x]; vs
+  · simp only [hv, ↓reduceIte] at h ⊢
+    have hall := List.all_eq_true.mp h
+    have a2 := primsOkListB_map encAttr20 t.attrs (fun a ha => prims_encAttr20 a (hall a ha))
+    simp only [encAttributes20]; vs
+
+theorem prims_encSomeParams : primsOkB encSomeParams = true := by
+  simp only [encSomeParams]; vs
+
+theorem prims_encKeyBlock (fmt : Nat) (b : Bytes) (alg len : Option Nat) (hf : E.keyFormatType.contains fmt = true)
+    (ha : okOpt E.cryptographicAlgorithm.contains alg = true) (hl : okOpt okLen len = true) :
+    primsOkB (encKeyBlock fmt b alg len) = true := by
+  have h1 := contains_lt _ _ lt_keyFormatType hf
+  cases alg with
+  | none =>
+    cases len with
+    | none => simp only [encKeyBlock]; vs
+    | some l =>
+      have hl' := primsOkB_len T.cryptographicLength l (by decide) (okOpt_some _ _ hl)
+      simp only [kmip_tags] at hl'
+      simp only [encKeyBlock]; vs
+  | some a =>
+    have h2 := contains_lt _ _ lt_cryptographicAlgorithm (okOpt_some _ _ ha)
+    cases len with
+    | none => simp only [encKeyBlock]; vs
+    | some l =>
+      have hl' := primsOkB_len T.cryptographicLength l (by decide) (okOpt_some _ _ hl)
+      simp only [kmip_tags] at hl'
+      simp only [encKeyBlock]; vs
+
+theorem prims_encSecret (o : RegObj) (h : okSecret o = true) : primsOkB (encSecret o) = true := by
+  obtain ⟨otype, value, alg, len, format, subtype⟩ := o
+  simp only [okSecret, Bool.and_eq_true] at h
+  obtain ⟨hx, h⟩ := h
+  by_cases h1 : otype = 1
+  · subst h1
+    simp only [↓reduceIte] at h
+    cases subtype <;> simp only [Bool.false_eq_true] at h
+    have := contains_lt _ _ lt_certificateType h
+    simp only [encSecret]; vs
+  · by_cases h2 : otype = 2 ∨ otype = 3 ∨ otype = 4
+    · simp only [h1, h2, ↓reduceIte, Bool.and_eq_true] at h
+      obtain ⟨⟨hf, ha⟩, hl⟩ := h
+      cases format <;> simp only [Bool.false_eq_true] at hf
+      have hk := prims_encKeyBlock _ (unhex value) alg len hf ha hl
+      simp only [encSecret, h1, h2, ↓reduceIte, Option.getD_some]
+      rcases h2 with rfl | rfl | rfl <;> simp only [Nat.reduceEqDiff, ↓reduceIte] <;> vs
+    · by_cases h5 : otype = 5
+      · subst h5
+        simp only [h2, ↓reduceIte, Nat.reduceEqDiff, or_self] at h
+        cases format with
+        | none => exact absurd h Bool.false_ne_true
+        | some f =>
+          cases alg with
+          | none => exact absurd h Bool.false_ne_true
+          | some a =>
+            cases len with
+            | none => exact absurd h Bool.false_ne_true
+            | some l =>
+              have h' : (E.keyFormatType.contains f && E.cryptographicAlgorithm.contains a && okLen l) = true := h
+              rw [Bool.and_eq_true, Bool.and_eq_true] at h'
+              have hk := prims_encKeyBlock f (unhex value) (some a) (some l) h'.1.1 (okOpt_of _ _ h'.1.2)
+                (okOpt_of _ _ h'.2)
+              simp only [encSecret, ↓reduceIte, Nat.reduceEqDiff, or_self, Option.getD_some]; vs
+      · by_cases h7 : otype = 7
+        · subst h7
+          simp only [h2, ↓reduceIte, Nat.reduceEqDiff, or_self] at h
+          cases subtype <;> simp only [Bool.false_eq_true] at h
+          have := contains_lt _ _ lt_secretDataType h
+          have hk := prims_encKeyBlock 2 (unhex value) none none (by decide) rfl rfl
+          simp only [encSecret, ↓reduceIte, Nat.reduceEqDiff, or_self, Option.getD_some]; vs
+        · by_cases h8 : otype = 8
+          · subst h8
+            simp only [h2, ↓reduceIte, Nat.reduceEqDiff, or_self] at h
+            cases subtype <;> simp only [Bool.false_eq_true] at h
+            have := contains_lt _ _ lt_opaqueDataType h
+            simp only [encSecret, ↓reduceIte, Nat.reduceEqDiff, or_self, Option.getD_some]; vs
+          · simp only [h1, h2, h5, h7, h8, ↓reduceIte] at h
+            exact absurd h Bool.false_ne_true
+
+theorem prims_encWrap (w : WrapSpec) (h : okWrap w = true) : primsOkB (encWrap w) = true := by
+  obtain ⟨m, eu, ep, mk, n, eo⟩ := w
+  simp only [okWrap, Bool.and_eq_true] at h
+  obtain ⟨⟨hm, hu⟩, ho⟩ := h
+  have h1 := contains_lt _ _ lt_wrappingMethod hm
+  have hn := primsOkListB_replicate (txt T.attributeName "Name") n (primsOkB_txt _ _ (by decide) (by decide))
+  have h1' : okText "1" = true := by decide
+  simp only [kmip_tags] at hn
+  cases eu <;> cases ep <;> cases mk <;> cases eo <;> simp only [okOpt] at hu ho <;>
+    (try have h2 := contains_lt _ _ lt_encodingOption ho) <;> simp only [encWrap] <;> vs
+
+theorem prims_encVersion (v : Nat) (h : okInt (Int.ofNat (v / 10)) = true) : primsOkB (encVersion v) = true := by
+  have h2 : okInt (Int.ofNat (v % 10)) = true := okInt_small _ (by omega)
+  simp only [encVersion]; vs
+
+theorem prims_encHolder (tag : Nat) (a : TAttr) (ht : tagOk tag = true) (h : okAttr20 a = true) :
+    primsOkB (encHolder tag a) = true := by
+  have := prims_encAttr20 a h
+  simp only [encHolder]; vs
+
+theorem prims_uidL (u : Option String) (h : okOpt okText u = true) : primsOkListB (uidL u) = true := by
+  cases u with
+  | none => rfl
+  | some s => have := okOpt_some _ _ h; simp only [uidL]; vs
+
+theorem prims_optTemplate (v t1 t2 : Nat) (o : Option Template) (h1 : tagOk t1 = true) (h2 : tagOk t2 = true)
+    (h : okTemplateO v o = true) : primsOkListB (optL o (encTemplate v t1 t2)) = true := by
+  cases o with
+  | none => rfl
+  | some t =>
+    have := prims_encTemplate v t1 t2 t h1 h2 h
+    simp only [optL, primsOkListB, this, Bool.and_self]
+
+theorem prims_optInt (t : Nat) (o : Option Int) (ht : tagOk t = true) (h : okOpt okInt o = true) :
+    primsOkListB (optL o (int t)) = true := by
+  cases o with
+  | none => rfl
+  | some n => simp only [optL, primsOkListB, primsOkB_int t n ht (okOpt_some _ _ h), Bool.and_self]
+
+theorem prims_optHolder (t : Nat) (o : Option TAttr) (ht : tagOk t = true) (h : okOpt okAttr20 o = true) :
+    primsOkListB (optL o (encHolder t)) = true := by
+  cases o with
+  | none => rfl
+  | some a => simp only [optL, primsOkListB, prims_encHolder t a ht (okOpt_some _ _ h), Bool.and_self]
+
+theorem prims_encPayload (v : Nat) (p : Payload) (h : okPayload v p = true) : primsOkListB (encPayload v p) = true := by
+  cases p with
+  | create ot t =>
+    simp only [okPayload, Bool.and_eq_true] at h
+    have h1 := contains_lt _ _ lt_objectType h.1.1
+    have h2 := prims_optTemplate v T.templateAttribute T.attributes_ t (by decide) (by decide) h.2
+    simp only [kmip_tags, optL, uidL] at *; simp only [encPayload, uidL]; vs
+  | createKeyPair c pr pu =>
+    simp only [okPayload, Bool.and_eq_true] at h
+    have h1 := prims_optTemplate v T.commonTemplateAttribute T.commonAttributes c (by decide) (by decide) h.1.1
+    have h2 := prims_optTemplate v T.privateKeyTemplateAttribute T.privateKeyAttributes pr (by decide) (by decide) h.1.2
+    have h3 := prims_optTemplate v T.publicKeyTemplateAttribute T.publicKeyAttributes pu (by decide) (by decide) h.2
+    simp only [kmip_tags, optL, uidL] at *; simp only [encPayload, uidL]; vs
+  | register ot t o =>
+    simp only [okPayload, Bool.and_eq_true] at h
+    obtain ⟨⟨⟨ho, hs⟩, ht⟩, hob⟩ := h
+    have h1 := contains_lt _ _ lt_objectType ho
+    have h2 := prims_optTemplate v T.templateAttribute T.attributes_ t (by decide) (by decide) ht
+    cases o with
+    | none => exact absurd hob Bool.false_ne_true
+    | some o =>
+      simp only [Bool.and_eq_true] at hob
+      have h3 := prims_encSecret o hob.2
+      simp only [kmip_tags, optL, uidL] at *; simp only [encPayload, uidL]; vs
+  | deriveKey ot us t dd dl =>
+    simp only [okPayload, Bool.and_eq_true] at h
+    obtain ⟨⟨⟨⟨ho, hne⟩, hus⟩, hs⟩, ht⟩ := h
+    have h1 := contains_lt _ _ lt_objectType ho
+    have h2 := prims_optTemplate v T.templateAttribute T.attributes_ t (by decide) (by decide) ht
+    have hall := List.all_eq_true.mp hus
+    have h3 := primsOkListB_map (txt T.uniqueIdentifier) us (fun a ha => primsOkB_txt _ _ (by decide) (hall a ha))
+    have h4 := prims_encSomeParams
+    cases dd <;> simp only [kmip_tags, optL, uidL] at * <;> simp only [encPayload, uidL] <;> vs
+  | locate mx off as =>
+    simp only [okPayload, Bool.and_eq_true] at h
+    obtain ⟨⟨hm, ho⟩, ha⟩ := h
+    have h1 := prims_optInt T.maximumItems mx (by decide) hm
+    have h2 := prims_optInt T.offsetItems off (by decide) ho
+    by_cases hv : v < 20
+    · simp only [hv, ↓reduceIte] at ha
+      have hall := List.all_eq_true.mp ha
+      have h3 := primsOkListB_map encAttr1x as (fun a h => prims_encAttr1x a (hall a h))
+      simp only [kmip_tags, optL, uidL] at *; simp only [encPayload, uidL, hv, ↓reduceIte]; vs
+    · simp only [hv, ↓reduceIte] at ha
+      have hall := List.all_eq_true.mp ha
+      have h3 := primsOkListB_map encAttr20 as (fun a h => prims_encAttr20 a (hall a h))
+      simp only [kmip_tags, optL, uidL] at *
+      cases as <;> simp only [encPayload, uidL, hv, ↓reduceIte, encAttributes20, List.isEmpty_nil, List.isEmpty_cons] <;> vs
+  | get u f c w =>
+    simp only [okPayload, Bool.and_eq_true] at h
+    obtain ⟨⟨hu, hf⟩, hw⟩ := h
+    have h1 := prims_uidL u hu
+    cases f <;> cases c <;> cases w <;> simp only [okOpt] at hf hw <;>
+      (try have h2 := contains_lt _ _ lt_keyFormatType hf) <;> (try have h3 := prims_encWrap _ hw) <;>
+      simp only [kmip_tags, optL, uidL] at * <;> simp only [encPayload, uidL] <;> vs
+  | getAttributes u ns =>
+    simp only [okPayload, Bool.and_eq_true, Bool.or_eq_true, decide_eq_true_eq] at h
+    obtain ⟨⟨hu, hn⟩, ht⟩ := h
+    have h1 := prims_uidL u hu
+    have hall := List.all_eq_true.mp hn
+    by_cases hv : v < 20
+    · have h2 := primsOkListB_map (txt T.attributeName) ns.eraseDups (fun a ha => primsOkB_txt _ _ (by decide) (hall a ha))
+      simp only [kmip_tags, optL, uidL] at *; simp only [encPayload, uidL, hv, ↓reduceIte]; vs
+    · have hall2 := List.all_eq_true.mp (ht.resolve_left hv)
+      have h2 := primsOkListB_map (fun n => enm T.attributeReference ((tagOfName n).getD 0)) ns.eraseDups
+        (fun a ha => by
+          have := hall2 a ha
+          cases htn : tagOfName a with
+          | none => simp only [htn, Option.isSome_none] at this; exact absurd this Bool.false_ne_true
+          | some t =>
+            exact primsOkB_enm _ _ (by decide) (contains_lt _ _ lt_allTags (nameOfTag_tagOfName a t htn).1))
+      simp only [kmip_tags, optL, uidL] at *; simp only [encPayload, uidL, hv, ↓reduceIte]; vs
+  | getAttributeList u => simp only [okPayload] at h; exact prims_uidL u h
+  | activate u => simp only [okPayload] at h; exact prims_uidL u h
+  | revoke u c =>
+    simp only [okPayload, Bool.and_eq_true] at h
+    have h1 := prims_uidL u h.1
+    cases c with
+    | none => exact absurd h.2 Bool.false_ne_true
+    | some c =>
+      have h2 := contains_lt _ _ lt_revocationReasonCode h.2
+      simp only [kmip_tags, optL, uidL] at *; simp only [encPayload, uidL]; vs
+  | destroy u => simp only [okPayload] at h; exact prims_uidL u h
+  | query fs =>
+    simp only [okPayload, Bool.and_eq_true] at h
+    have hall := List.all_eq_true.mp h.2
+    exact primsOkListB_map (enm T.queryFunction) fs
+      (fun a ha => primsOkB_enm _ _ (by decide) (contains_lt _ _ lt_queryFunction (hall a ha)))
+  | discoverVersions vs =>
+    simp only [okPayload] at h
+    have hall := List.all_eq_true.mp h
+    exact primsOkListB_map encVersion vs (fun a ha => prims_encVersion a (hall a ha))
+  | encrypt u p =>
+    simp only [okPayload] at h
+    have h1 := prims_uidL u h
+    have h4 := prims_encSomeParams
+    cases p <;> simp only [kmip_tags, optL, uidL] at * <;> simp only [encPayload, uidL] <;> vs
+  | decrypt u p =>
+    simp only [okPayload] at h
+    have h1 := prims_uidL u h
+    have h4 := prims_encSomeParams
+    cases p <;> simp only [kmip_tags, optL, uidL] at * <;> simp only [encPayload, uidL] <;> vs
+  | sign u p =>
+    simp only [okPayload] at h
+    have h1 := prims_uidL u h
+    have h4 := prims_encSomeParams
+    cases p <;> simp only [kmip_tags, optL, uidL] at * <;> simp only [encPayload, uidL] <;> vs
+  | signatureVerify u p =>
+    simp only [okPayload] at h
+    have h1 := prims_uidL u h
+    have h4 := prims_encSomeParams
+    cases p <;> simp only [kmip_tags, optL, uidL] at * <;> simp only [encPayload, uidL] <;> vs
+  | mac u alg d =>
+    simp only [okPayload, Bool.and_eq_true] at h
+    obtain ⟨⟨hu, ha⟩, hd⟩ := h
+    have h1 := prims_uidL u hu
+    cases alg <;> cases d <;> simp only [okOpt] at ha <;>
+      (try have h2 := contains_lt _ _ lt_cryptographicAlgorithm ha) <;> simp only [kmip_tags, optL, uidL] at * <;> simp only [encPayload, uidL] <;> vs
+  | setAttribute u a =>
+    simp only [okPayload, Bool.and_eq_true] at h
+    have h1 := prims_uidL u h.1.2
+    have h2 := prims_encHolder T.newAttribute a (by decide) h.2
+    simp only [kmip_tags] at h2
+    simp only [kmip_tags, optL, uidL] at *; simp only [encPayload, uidL]; vs
+  | modifyAttribute u a cu nw =>
+    simp only [okPayload, Bool.and_eq_true] at h
+    obtain ⟨hu, h⟩ := h
+    have h1 := prims_uidL u hu
+    by_cases hv : v < 20
+    · simp only [hv, ↓reduceIte] at h
+      cases a with
+      | none => exact absurd h Bool.false_ne_true
+      | some a =>
+        have h2 := prims_encAttr1x a h
+        simp only [kmip_tags, optL, uidL] at *; simp only [encPayload, uidL, hv, ↓reduceIte]; vs
+    · simp only [hv, ↓reduceIte, Bool.and_eq_true] at h
+      have h2 := prims_optHolder T.currentAttribute cu (by decide) h.1
+      cases nw with
+      | none => exact absurd h.2 Bool.false_ne_true
+      | some nw =>
+        have h3 := prims_encHolder T.newAttribute nw (by decide) h.2
+        simp only [kmip_tags] at h2 h3
+        simp only [kmip_tags, optL, uidL] at *; simp only [encPayload, uidL, hv, ↓reduceIte]; vs
+  | deleteAttribute u n i cu r =>
+    simp only [okPayload, Bool.and_eq_true] at h
+    obtain ⟨hu, h⟩ := h
+    have h1 := prims_uidL u hu
+    by_cases hv : v < 20
+    · simp only [hv, ↓reduceIte, Bool.and_eq_true] at h
+      have h2 := prims_optInt T.attributeIndex i (by decide) h.2
+      cases n with
+      | none => exact absurd h.1 Bool.false_ne_true
+      | some n =>
+        have h3 := h.1
+        simp only [kmip_tags] at h2
+        simp only [kmip_tags, optL, uidL] at *; simp only [encPayload, uidL, hv, ↓reduceIte]; vs
+    · simp only [hv, ↓reduceIte, Bool.and_eq_true] at h
+      have h2 := prims_optHolder T.currentAttribute cu (by decide) h.1.1
+      have hvv : okText "v" = true := by decide
+      simp only [kmip_tags] at h2
+      cases r with
+      | none => simp only [kmip_tags, optL, uidL] at *; simp only [encPayload, uidL, hv, ↓reduceIte]; vs
+      | some r =>
+        have h3 := okOpt_some _ _ h.1.2
+        simp only [kmip_tags, optL, uidL] at *; simp only [encPayload, uidL, hv, ↓reduceIte]; vs
+  | unsupported op => rfl
+
+theorem prims_encItem (v : Nat) (it : Kmip.Item) (h : okItem v it = true) : primsOkB (encItem v it) = true := by
+  obtain ⟨p, bid, cr⟩ := it
+  simp only [okItem, Bool.and_eq_true] at h
+  have h1 := contains_lt _ _ lt_operation (op_member v p h.2)
+  have h2 := prims_encPayload v p h.2
+  cases bid <;> simp only [encItem] <;> vs
+
+theorem okLen_supported (v : Nat) (h : supportedVersion v = true) : okInt (Int.ofNat (v / 10)) = true := by
+  simp only [supportedVersion, Bool.or_eq_true, decide_eq_true_eq] at h
+  exact okInt_small _ (by omega)
+
+theorem prims_encHeader (v : Nat) (ts : Option Int) (as : Option Bool) (bo mx : Option Nat) (items : List Kmip.Item)
+    (hv : supportedVersion v = true) (hm : okOpt okLen mx = true)
+    (hb : okOpt E.batchErrorContinuationOption.contains bo = true) (ht : okOpt okDate ts = true)
+    (hl : okLen items.length = true) : primsOkB (encHeader ⟨v, ts, as, bo, mx, items⟩) = true := by
+  have h1 := prims_encVersion v (okLen_supported v hv)
+  have h2 : primsOkListB (optL mx (fun n => int T.maximumResponseSize (Int.ofNat n))) = true := by
+    cases mx with
+    | none => rfl
+    | some n =>
+      simp only [optL, primsOkListB, primsOkB_len T.maximumResponseSize n (by decide) (okOpt_some _ _ hm), Bool.and_self]
+  have h3 : primsOkListB (optL ts (dat T.timeStamp)) = true := by
+    cases ts with
+    | none => rfl
+    | some n => simp only [optL, primsOkListB, primsOkB_dat T.timeStamp n (by decide) (okOpt_some _ _ ht), Bool.and_self]
+  have h4 : primsOkListB (optL bo (enm T.batchErrorContinuationOption)) = true := by
+    cases bo with
+    | none => rfl
+    | some n =>
+      simp only [optL, primsOkListB, primsOkB_enm T.batchErrorContinuationOption n (by decide)
+        (contains_lt _ _ lt_batchOption (okOpt_some _ _ hb)), Bool.and_self]
+  have h5 := primsOkB_len T.batchCount items.length (by decide) hl
+  have h6 : primsOkListB (optL as (boo T.asynchronousIndicator)) = true := by
+    cases as with
+    | none => rfl
+    | some b => simp only [optL, primsOkListB, primsOkB_boo T.asynchronousIndicator b (by decide), Bool.and_self]
+  simp only [encHeader, primsOkB_struct_eq _ _ (by decide : tagOk T.requestHeader = true), primsOkListB_append,
+    primsOkListB, h1, h2, h3, h4, h5, h6, Bool.and_self]
+
+/-- **every leaf of the tree M16 builds for a request of its domain is within the range of its primitive** -/
+theorem prims_of_okRequest (r : Request) (h : okRequest r = true) : primsOkB (encRequest r) = true := by
+  obtain ⟨v, ts, as, bo, mx, items⟩ := r
+  simp only [okRequest, Bool.and_eq_true] at h
+  obtain ⟨⟨⟨⟨⟨hv, hm⟩, hb⟩, ht⟩, hl⟩, hi⟩ := h
+  have h1 := prims_encHeader v ts as bo mx items hv hm hb ht hl
+  have hall := List.all_eq_true.mp hi
+  have h2 := primsOkListB_map (encItem v) items (fun it hit => prims_encItem v it (hall it hit))
+  simp only [encRequest, primsOkB_struct_eq _ _ (by decide : tagOk T.requestMessage = true), primsOkListB, h1, h2,
+    Bool.and_self]
+
+/-- **the tree of a request of the encoder's domain whose frame is shorter than 2^32 bytes is a valid M1 item with
+well-formed text** -/
+theorem valid_of_okRequest (r : Request) (h : okRequest r = true) (hl : (encode (encRequest r)).length < 2 ^ 32) :
+    (encRequest r).Valid ∧ textOkB (encRequest r) = true :=
+  valid_of_prims (encRequest r) (prims_of_okRequest r h) hl
 
 end Kmip.EncodeRequest
